@@ -113,5 +113,15 @@ def one_violation(prop: str, problems: list[tuple[str, str, str]], h: Any = None
             sig += f"<-stale-{x['handler']}-after-rearm"
             problems = problems + [("diagnosis", f"a {x['handler']} message queued before stage {x['stage']} was re-armed "
                                                  f"changed its {x['kind']} {x['old']}->{x['new']} afterwards", "")]
+    planlost: list[str] = []
+    if h is not None:
+        from sim.oracles import plan_lost_after_claim
+
+        pl = plan_lost_after_claim(h)
+        if pl:
+            planlost = [pl[0]["stage"]]
+            sig += "<-plan-commit-lost"
+            problems = problems + [("diagnosis", f"StartStage {pl[0]['msg']} claimed stage {pl[0]['stage']} and was acknowledged but its "
+                                                 f"plan never became durable (optimistic-lock conflict swallowed): nothing was queued", "")]
     msg = " || ".join(f"{c}: {m}" for c, m, _ in problems)
-    return [V(prop, cls, msg, sig=sig, classes=[c for c, _, _ in problems], stale=stale)]
+    return [V(prop, cls, msg, sig=sig, classes=[c for c, _, _ in problems], stale=stale, planlost=planlost)]
